@@ -99,6 +99,12 @@ func c15BigReads(u *vfUnit) {
 	span := 32768
 	var maxTx uint32
 	var copts []ClientOption
+	if (u.Index/8)%4 == 2 {
+		// the option is documented as one that can only raise the limit: a smaller value changes nothing, a 32 KiB
+		// operation stays one packet and one step
+		maxTx = []uint32{4096, 1, 32767}[(u.Index/32)%3]
+		u.Count("big_read_units_with_a_lowered_max_payload_option", 1)
+	}
 	if (u.Index/8)%2 == 1 {
 		span, maxTx = 49152, 65536
 		copts = append(copts, MaxPacketUnchecked(65536))
